@@ -111,17 +111,22 @@ def corr_templates(ctx, sf):
     classes = SCALAR1 + SCALAR2 + ["DisplacedSqueezed", "Kgate", "Rgate"]
     for hbar in (2.0, 1.0, 0.7):
         sf.hbar = hbar
-        prog = sf.Program(4)
+        prog = sf.Program(13)
         for cls in classes:
             for _ in range(ctx.n(6, 120)):
                 pars = scalar_pars(rng, cls, small=rng.random() < 0.5)
-                regs = rng.sample(range(4), nmodes(cls))
+                regs = rng.sample(range(13), nmodes(cls))        # descending and multi-digit indices included
                 dagger = cls != "DisplacedSqueezed" and rng.random() < 0.5
                 op = make_op(sf, cls, pars, dagger)
                 try:
                     real = dec02.canon_real(op.decompose([prog.register[i] for i in regs]))
                 except NotImplementedError:
                     real = None
+                except Exception as e:  # noqa: BLE001
+                    ctx.fail(f"raises:decompose:{cls}:{type(e).__name__}", f"{cls}{pars}.decompose raised {type(e).__name__}: {e}",
+                             dict(kind="history", op=dict(cls=cls, pars=pars, dagger=dagger), k=nmodes(cls), regsA=regs,
+                                  regsB=regs, big=13))
+                    continue
                 case = dict(cls=cls, pars=pars, regs=regs, dagger=dagger, hbar=hbar)
                 cases.append((case, real))
                 reqs.append(dict(op="c02.template", cls=cls, atoms=[dec02.fr(a) for a in dec02.input_atoms(cls, pars)],
@@ -211,11 +216,15 @@ def corr_driver(ctx, sf):
             return ("CircuitError", str(e))
         except NotImplementedError as e:
             return ("NotImplementedError", str(e))
+        except ValueError:
+            raise
+        except Exception as e:  # noqa: BLE001
+            return (type(e).__name__, str(e))
 
     for it in range(ctx.n(150, 3000)):
         cname = COMPILERS[it % 3]
         comp = compiler_db[cname]()
-        n = 4
+        n = 13
         ops_ = []
         for _ in range(rng.randint(1, 6)):
             cls = rng.choice(pool)
@@ -232,7 +241,7 @@ def corr_driver(ctx, sf):
     for it in range(ctx.n(60, 1500)):
         cname = COMPILERS[it % 3]
         comp = compiler_db[cname]()
-        n = 5
+        n = 12
         ops_ = []
         for _ in range(rng.randint(1, 3)):
             if rng.random() < 0.7:
@@ -314,7 +323,7 @@ def corr_mesh(ctx, sf):
     cases, reqs = [], []
     for it in range(ctx.n(250, 5000)):
         m = rng.randint(2, 6)
-        big = m + rng.randint(0, 2)
+        big = m + rng.choice([0, 1, 2, 8])
         prog = sf.Program(big)
         regidx = rng.sample(range(big), m)
         reg = [prog.register[i] for i in regidx]
@@ -792,6 +801,217 @@ def oracle_matrix_ops(ctx, sf):
 
 
 
+# ------------------------------------------------------------------ templates of the matrix operations
+
+def _finite(x):
+    x = float(np.real(x))
+    return x if math.isfinite(x) else 0.0
+
+
+def _mat_name(kid, named):
+    """names of all candidate matrices equal to the kid's matrix (several factors may coincide)"""
+    M = kid.op.p[0]
+    Mn = np.asarray(M)
+    return sorted({name for name, ref in named
+                   if ref is not None and (M is ref or (np.shape(ref) == Mn.shape and np.array_equal(np.asarray(ref), Mn)))})
+
+
+def xcanon_real(kids, named):
+    out = []
+    for k in kids:
+        cls = type(k.op).__name__
+        d = dict(cls=cls, regs=[r.ind for r in k.reg], pars=[], extra={})
+        if cls == "Interferometer":
+            d["extra"] = dict(mat=_mat_name(k, named), mesh=k.op.mesh, drop_identity=bool(k.op.drop_identity), tol=float(k.op.tol))
+        elif cls == "GaussianTransform":
+            d["extra"] = dict(mat=_mat_name(k, named), vacuum=bool(k.op.vacuum))
+        else:
+            d["pars"] = [dec02.pval(x) for x in k.op.p]
+        out.append(d)
+    return out
+
+
+def xsame(model, real):
+    if len(model) != len(real):
+        return f"length {len(model)} vs {len(real)}: {[m['cls'] for m in model]} vs {[r['cls'] for r in real]}"
+    for i, (m, r) in enumerate(zip(model, real)):
+        if m["cls"] != r["cls"] or list(m["regs"]) != r["regs"]:
+            return f"#{i}: {m['cls']}{m['regs']} vs {r['cls']}{r['regs']}"
+        mp = [dec02.unfr(x) for x in m["pars"]]
+        if len(mp) != len(r["pars"]) or any(abs(a - b) > 1e-9 * max(1, abs(a)) for a, b in zip(mp, r["pars"])):
+            return f"#{i} {m['cls']}{m['regs']}: parameters {mp} vs {r['pars']}"
+        for k, v in r["extra"].items():
+            mv = m.get(k)
+            if k == "tol":
+                if abs(dec02.unfr(mv) - v) > 1e-15:
+                    return f"#{i} {m['cls']}: tol {dec02.unfr(mv)} vs {v}"
+            elif (mv not in v) if k == "mat" else (mv != v):
+                return f"#{i} {m['cls']}{m['regs']}: option {k} = {mv} (model) vs {v}"
+    return None
+
+
+def corr_matrix_templates(ctx, sf):
+    """GraphEmbed / BipartiteGraphEmbed / GaussianTransform / Gaussian `_decompose` vs the model templates: emitted
+    classes, targets, parameters and the options (mesh, drop_identity, tol, vacuum) of the nested operations"""
+    import inspect
+    from strawberryfields import ops, decompositions as dec
+    rng, rs = ctx.rng, ctx.nprng(8)
+    sig = inspect.signature(ops.Interferometer.__init__).parameters
+    dflt = dict(mesh=sig["mesh"].default, drop_identity=bool(sig["drop_identity"].default), tol=dec02.fr(sig["tol"].default))
+    dtol = float(ops._decomposition_tol)
+    cases, reqs = [], []
+    for it in range(ctx.n(120, 2400)):
+        kind = ("graph", "bipartite", "gtransform", "gaussian")[it % 4]
+        k = rng.choice([2, 3, 4]) if kind != "bipartite" else rng.choice([2, 4, 6])
+        big = k + rng.choice([0, 1, 9])
+        prog = sf.Program(big)
+        regidx = rng.sample(range(big), k)
+        reg = [prog.register[i] for i in regidx]
+        kw = {}
+        if rng.random() < 0.6:
+            kw["mesh"] = rng.choice(MESHES[:6])
+        case = dict(kind=kind, reg=regidx, kw=dict(kw))
+        try:
+            if kind == "graph":
+                A = np.triu(rs.integers(0, 2, (k, k)).astype(float), 1)
+                A = A + A.T
+                mode = it % 5
+                if mode == 0:
+                    A = np.identity(k)
+                elif mode == 1:           # diagonal graph: U is (a permutation of) the identity
+                    A = np.diag(np.round(rs.uniform(0.2, 1.0, k), 2))
+                elif mode == 2:
+                    A[0, :] = A[:, 0] = 0     # an isolated vertex: one vanishing squeezing value
+                if not A.any():
+                    A[0, -1] = A[-1, 0] = 1.0
+                op = ops.GraphEmbed(A, mean_photon_per_mode=rng.choice([0.2, 1.0]))
+                ident = bool(np.allclose(A, np.identity(k), atol=1e-13, rtol=0))
+                sqv = [] if ident else [[dec02.fr(x), bool(abs(x) >= dtol)] for x in op.sq]
+                uid = True if ident else bool(np.allclose(op.U, np.identity(k), atol=dtol, rtol=0))
+                named = [("U", None if ident else op.U)]
+                req = dict(op="c02.matrix_template", kind=kind, reg=regidx, defaults=dflt, identity=ident, sq=sqv, u_identity=uid)
+                if "mesh" in kw:
+                    req["kw_mesh"] = kw["mesh"]
+                case["A"] = dec02.enc(A)
+            elif kind == "bipartite":
+                N = k // 2
+                B = np.round(rs.uniform(0.1, 1.0, (N, N)), 2)
+                mode = it % 6
+                if mode == 0:
+                    B = np.identity(N)
+                elif mode == 1:
+                    B = np.diag(np.round(rs.uniform(0.2, 1.0, N), 2))
+                elif mode == 2 and N >= 2:
+                    B[0, :] = 0
+                    B[:, 0] = 0
+                    B[0, 0] = 0.0         # an isolated pair: vanishing two-mode squeezing
+                sd, st, mp = rng.random() < 0.5, rng.choice([1e-6, 1e-4]), rng.choice([0.2, 1.0])
+                edges = rng.random() < 0.7
+                Ain = B if edges else np.block([[np.zeros((N, N)), B], [B.T, np.zeros((N, N))]])
+                op = ops.BipartiteGraphEmbed(Ain, mean_photon_per_mode=mp, edges=edges, drop_identity=sd, tol=st)
+                if rng.random() < 0.5:
+                    kw["drop_identity"] = rng.random() < 0.5
+                if rng.random() < 0.4:
+                    kw["tol"] = rng.choice([1e-5, 1e-7])
+                if rng.random() < 0.3:
+                    kw["mean_photon_per_mode"] = 0.5
+                case["kw"] = dict(kw)
+                sqf, U, V = dec.bipartite_graph_embed(B, mean_photon_per_mode=kw.get("mean_photon_per_mode", mp),
+                                                      atol=kw.get("tol", st), rtol=0)
+                named = [("I", np.identity(N)), ("U", U), ("V", V)]
+                req = dict(op="c02.matrix_template", kind=kind, reg=regidx, identity=False, self_drop=sd, self_tol=dec02.fr(st),
+                           sq=[[dec02.fr(x), bool(abs(x) >= dtol)] for x in sqf],
+                           u_identity=bool(np.allclose(U, np.identity(N), atol=dtol, rtol=0)),
+                           v_identity=bool(np.allclose(V, np.identity(N), atol=dtol, rtol=0)))
+                for a, b in (("mesh", "kw_mesh"), ("drop_identity", "kw_drop")):
+                    if a in kw:
+                        req[b] = kw[a]
+                if "tol" in kw:
+                    req["kw_tol"] = dec02.fr(kw["tol"])
+                case.update(B=dec02.enc(B), edges=edges, self_drop=sd)
+            elif kind == "gtransform":
+                skind = rng.choice(["generic", "passive", "identity", "one_unsqueezed", "partial", "signs", "diag", "left_only"])
+                S = d17.symplectic_case(rs, k, skind)
+                vac = rng.random() < 0.4
+                op = ops.GaussianTransform(S, vacuum=vac)
+                sqv = []
+                if op.active:
+                    for e in op.Sq:
+                        le = np.log(e)
+                        sqv.append([bool(abs(e - 1) >= dtol), dec02.fr(_finite(abs(le))), dec02.fr(_finite(np.angle(le)))])
+                named = [("U1", op.U1), ("U2", getattr(op, "U2", None))]
+                req = dict(op="c02.matrix_template", kind=kind, reg=regidx, defaults=dflt, active=bool(op.active), vacuum=vac, sq=sqv)
+                if "mesh" in kw:
+                    req["kw_mesh"] = kw["mesh"]
+                case.update(S=dec02.enc(S), vacuum=vac, skind=skind)
+            else:
+                branch = GAUSS_KINDS[(it // 4) % len(GAUSS_KINDS)]
+                hbar = rng.choice([2.0, 1.0])
+                sf.hbar = hbar
+                V2 = gaussian_cov_case(rng, rs, k, branch)
+                r = [rng.choice([0.0, 0.0, 0.3, -0.5]) for _ in range(2 * k)]
+                op = ops.Gaussian(V2 * hbar / 2, np.array(r))
+                kw = {}
+                case["kw"] = {}
+                V2 = V2 * hbar / 2 / (hbar / 2)
+                D = np.diag(V2)
+                is_diag = bool(np.all(V2 == np.diag(D)))
+                BD = xpxp_of(V2)
+                blocks = [BD[2 * i:2 * i + 2, 2 * i:2 * i + 2] for i in range(k)]
+                from scipy.linalg import block_diag
+                is_bd = (not is_diag) and bool(np.all(BD == block_diag(*blocks)))
+                pure = bool(abs(np.linalg.det(V2) - 1.0) < 1e-6)
+                modes = []
+                with np.errstate(all="ignore"):
+                    for n_ in range(k):
+                        v = blocks[n_]
+                        nb = 0.5 * (D[n_] - 1.0)
+                        modes.append(dict(
+                            diagBig=bool(abs(D[n_] - 1) >= dtol), diagR=dec02.fr(_finite(abs(np.log(D[n_]) / 2))),
+                            diagSmall=bool(D[n_] < 1), rotBig=bool(not np.all(v - np.identity(2) < dtol)),
+                            rotR=dec02.fr(_finite(abs(np.arccosh(np.sum(np.diag(v)) / 2)) / 2)),
+                            rotPhi=dec02.fr(_finite(np.arctan2(-2 * v[0, 1], v[1, 1] - v[0, 0]))),
+                            thBig=bool(nb >= dtol), thNbar=dec02.fr(nb), wBig=bool(abs(op.nbar[n_]) >= dtol),
+                            wNbar=dec02.fr(op.nbar[n_])))
+                named = [("S", op.S)]
+                req = dict(op="c02.matrix_template", kind=kind, reg=regidx, pi=dec02.fr(math.pi), pure=pure, is_diag=is_diag,
+                           is_block_diag=is_bd, thermal_diag=bool(is_diag and np.all(D[:k] == D[k:])), modes=modes,
+                           xdisp=[[dec02.fr(u), bool(u != 0)] for u in r[:k]], pdisp=[[dec02.fr(u), bool(u != 0)] for u in r[k:]])
+                case.update(V2=dec02.enc(V2), r=r, hbar=hbar, branch=branch)
+            real = xcanon_real(op._decompose(reg, **kw), named)
+        except ValueError:
+            ctx.tally("matrix-template:factorisation-rejected-input")
+            sf.hbar = 2.0
+            continue
+        except Exception as e:  # noqa: BLE001
+            sf.hbar = 2.0
+            ctx.fail(f"raises:matrix-template:{kind}:{type(e).__name__}", f"{kind} _decompose raised {type(e).__name__}: {e}",
+                     dict(kind="none", case=case))
+            continue
+        sf.hbar = 2.0
+        cases.append((case, real))
+        reqs.append(req)
+        ctx.count(f"matrix-template:{kind}:{case.get('branch', case.get('skind', ''))}", case, True,
+                  sample=dict(kind=kind, targets=regidx, kw=case["kw"]))
+        for d in real:
+            if d["cls"] == "Interferometer":
+                ctx.tally(f"nested-interferometer:mesh={d['extra']['mesh']}:drop={d['extra']['drop_identity']}")
+    for (case, real), res in zip(cases, ctx.lean(reqs)):
+        ctx.corr_cases += 1
+        if isinstance(res, dict) and "__error__" in res:
+            ctx.disagree("matrix-template", case, res, real)
+            continue
+        d = xsame(res, real)
+        if d:
+            ctx.disagree("matrix-template", case, d, real)
+
+
+def xpxp_of(M):
+    n = M.shape[0] // 2
+    perm = [j for i in range(n) for j in (i, i + n)]
+    return M[np.ix_(perm, perm)]
+
+
 # ------------------------------------------------------------------ sharing, history, holes, primitives (lessons 1-3, 5)
 
 def snapshot_op(op):
@@ -1023,6 +1243,7 @@ def run(ctx, sf):
         corr_templates(ctx, sf)
         corr_driver(ctx, sf)
         corr_mesh(ctx, sf)
+        corr_matrix_templates(ctx, sf)
     oracle_scalar(ctx, sf)
     oracle_native_vs_decomposed(ctx, sf)
     oracle_interferometer(ctx, sf)
@@ -1045,6 +1266,8 @@ def search(ctx, sf):
 
 def replay_one(ctx, sf, rp):
     kind = rp["kind"]
+    if kind == "none":
+        return
     if kind == "scalar":
         spec = rp["spec"]
         op = spec["ops"][-1]
